@@ -89,10 +89,125 @@ func runC10(c *Ctx) {
 		return
 	}
 	c10wrappers(c, m)
+	c10flagWriters(c, m)
 	c10end(c, m)
+	c10commitResult(c, m)
 	c10setOffsets(c, m)
 	c10requireStable(c, m)
 	c10callback(c, m)
+	// exactly-once also needs EndTransaction to be truthful and to heal an
+	// unconfirmed end (C11 clauses 1-3): re-derived here
+	c11endTransaction(c, m)
+}
+
+// c10flagWriters: the abort flags are written only by the installed wrappers
+// (true) and by End's deferred reset (false, after the decision was made).
+func c10flagWriters(c *Ctx, m *Module) {
+	rule := "abort-flag-writers"
+	funcs := m.FuncsIn("kgo")
+	for _, fld := range []string{"revoked", "lost", "revokedCh", "lostCh"} {
+		fv := m.Field("kgo", "GroupTransactSession", fld)
+		if fv == nil {
+			c.Undecided("anchor", "GroupTransactSession."+fld, 0, m, "field not found")
+			continue
+		}
+		n := 0
+		seen := map[string]int{}
+		for _, s := range StoreSites(funcs, fv) {
+			n++
+			cons := s.Fn.Key + ": s." + fld + " = " + exprStr(s.RHS)
+			seen[cons]++
+			if seen[cons] > 1 {
+				cons += "#" + string(rune('0'+seen[cons]))
+			}
+			switch s.Fn.Key {
+			case "kgo.NewGroupTransactSession":
+				// the wrappers (checked by abort-flag-wrappers) and the initial literal
+				c.OK(rule, cons, s.Node.Pos(), m, "constructor / installed wrapper")
+			case "kgo.GroupTransactSession.End":
+				// only the reset in the first deferred function: it runs after End decided
+				lit := innermostLit(s.Fn, s.Node)
+				okDefer := false
+				if lit != nil && len(s.Fn.Decl.Body.List) > 0 {
+					if d, ok := s.Fn.Decl.Body.List[0].(*ast.DeferStmt); ok && d.Call.Fun == ast.Expr(lit) {
+						okDefer = true
+					}
+				}
+				c.Check(okDefer, rule, cons, s.Node.Pos(), m, "reset in End's deferred function (after the commit decision)", "the abort flag is reset in End outside its deferred function: a revoke seen before the decision can be forgotten")
+			default:
+				c.Fail(rule, cons, s.Node.Pos(), m, "the abort flag is written outside the rebalance wrappers and End's reset: a revoke or loss that happened after the records were polled can be forgotten, and End commits output whose input another member re-processes")
+			}
+		}
+		c.Floor(rule+"/"+fld, n, 2)
+	}
+}
+
+// c10commitResult: the TxnOffsetCommit callback latches its verdict.
+func c10commitResult(c *Ctx, m *Module) {
+	f := c.NeedFunc(m, "kgo.GroupTransactSession.End")
+	if f == nil {
+		return
+	}
+	info := f.Info()
+	rule := "commit-result-latched"
+	// hasAbortableCommitErr: every store is the constant true
+	if o := localObj(f, "hasAbortableCommitErr"); o != nil {
+		n := 0
+		for _, rhs := range assignsTo(f, o) {
+			v, isC := false, false
+			if rhs != nil {
+				v, isC = constBool(info, rhs)
+			}
+			c.Check(isC && v, rule, f.Key+": hasAbortableCommitErr = "+exprStr(rhs)+"#"+ordinal(&n), f.Pos(), m, "only ever set", "hasAbortableCommitErr is assigned a computed value: a later partition without error resets the verdict of an earlier abortable error and End commits with some offsets uncommitted")
+		}
+		c.Floor(rule+"/abortable-stores", n, 2)
+	} else {
+		c.Undecided("anchor", f.Key+": hasAbortableCommitErr", f.Pos(), m, "local not found")
+	}
+	// commitErrs: only appended to
+	if o := localObj(f, "commitErrs"); o != nil {
+		for _, rhs := range assignsTo(f, o) {
+			ok := false
+			if call, isCall := rhs.(*ast.CallExpr); isCall && exprStr(call.Fun) == "append" && len(call.Args) >= 2 && exprStr(call.Args[0]) == "commitErrs" {
+				ok = true
+			}
+			c.Check(ok, rule, f.Key+": commitErrs only appended", f.Pos(), m, "", "commitErrs is overwritten: an earlier partition's commit error is lost")
+		}
+	}
+	// every partition error is classified: abortable latch or appended
+	var lit *ast.FuncLit
+	for _, call := range callsNamed(f.Decl.Body, info, "commitTransactionOffsets", false) {
+		if len(call.Args) == 3 {
+			lit, _ = call.Args[2].(*ast.FuncLit)
+		}
+	}
+	if lit == nil {
+		return
+	}
+	g := f.LitGraph(lit)
+	isVerdict := func(n ast.Node) bool {
+		as, ok := n.(*ast.AssignStmt)
+		if !ok || len(as.Lhs) != 1 {
+			return false
+		}
+		l := exprStr(as.Lhs[0])
+		return l == "hasAbortableCommitErr" || l == "commitErrs"
+	}
+	nErr := 0
+	ast.Inspect(lit.Body, func(x ast.Node) bool {
+		ifs, ok := x.(*ast.IfStmt)
+		if !ok {
+			return true
+		}
+		// `if err != nil` / `if err := ...; err != nil`
+		if nosp(exprStr(ifs.Cond)) != "err!=nil" {
+			return true
+		}
+		path, found := armMustPass(g, ifs, isVerdict)
+		c.Check(!found, rule, f.Key+": commit error recorded#"+ordinal(&nErr), ifs.Pos(), m, "every error ends in the abortable latch or in commitErrs", "a TxnOffsetCommit error can pass without being recorded ("+pathStr(path)+"): End would commit with offsets uncommitted")
+		return true
+	})
+	c.Floor(rule+"/error-arms", nErr, 2)
 }
 
 func c10wrappers(c *Ctx, m *Module) {
@@ -786,6 +901,11 @@ func runC11(c *Ctx) {
 	}
 	c11endTransaction(c, m)
 	c11writers(c, m)
+	// GroupTransactSession.End's own report (C10 clauses 2, 3 and 5) is part of
+	// "end results are truthful": re-derived here
+	c10end(c, m)
+	c10commitResult(c, m)
+	c10callback(c, m)
 }
 
 func c11endTransaction(c *Ctx, m *Module) {
